@@ -187,11 +187,17 @@ type c16ActInfo struct {
 	ents  []*egPart
 	final bool
 	altID int
+	typ   string // Go type of the alternative's nonterminal (final actions)
 }
+
+// c16NTType is the value type of the i-th nonterminal: three integer types, so that a reference
+// resolved with the type of a different symbol fails its type assertion and shows up as 0.
+func c16NTType(i int) string { return []string{"int", "int64", "uint32"}[i%3] }
 
 func (c *c16Case) actInfo() map[int]*c16ActInfo {
 	info := map[int]*c16ActInfo{}
 	altID := 0
+	curNT := 0
 	var scope func(a *egAlt, top bool)
 	scope = func(a *egAlt, top bool) {
 		var ents []*egPart
@@ -215,11 +221,12 @@ func (c *c16Case) actInfo() map[int]*c16ActInfo {
 		if top {
 			altID++
 			if a.Act > 0 {
-				info[a.Act-1] = &c16ActInfo{ents: ents, final: true, altID: altID}
+				info[a.Act-1] = &c16ActInfo{ents: ents, final: true, altID: altID, typ: c16NTType(curNT)}
 			}
 		}
 	}
-	for _, nt := range c.G.NTs {
+	for ni, nt := range c.G.NTs {
+		curNT = ni
 		for _, a := range nt.Alts {
 			scope(a, true)
 		}
@@ -241,7 +248,7 @@ func (c *c16Case) actionText(id int, info map[int]*c16ActInfo) string {
 	var sb strings.Builder
 	sb.WriteString("{ ")
 	if ai.final {
-		fmt.Fprintf(&sb, "$$ = %d + ${left().offset}; ", ai.altID*100000)
+		fmt.Fprintf(&sb, "$$ = %s(%d + ${left().offset}); ", ai.typ, ai.altID*100000)
 	}
 	for j, r := range c.Acts[id].Refs {
 		switch r.Kind {
@@ -281,6 +288,14 @@ func (c *c16Case) render(name string) string {
 	defer func() { egCmdText = nil }()
 	opts := map[string]string{"eventBased": "false", "optimizeTables": fmt.Sprint(c.Opt),
 		"__termType": " {int}", "__termAction": " { $$ = l.tokenOffset }", "__ntType": " {int}"}
+	for i, nt := range c.G.NTs {
+		opts["__ntType:"+nt.Name] = " {" + c16NTType(i) + "}"
+	}
+	pre := ""
+	if c.Seed%3 == 0 {
+		// a template parameter anywhere in the grammar sends every rule through instantiation
+		pre = "%flag Unused = false;\n"
+	}
 	suffix := func(nt, alt int) string {
 		a := c.G.NTs[nt].Alts[alt]
 		if a.Act > 0 {
@@ -288,7 +303,7 @@ func (c *c16Case) render(name string) string {
 		}
 		return ""
 	}
-	return c.G.render(name, opts, c.Space, "", suffix)
+	return c.G.render(name, opts, c.Space, pre, suffix)
 }
 
 func actionAdapter(g *grammar.Grammar, files map[string]string) map[string]string {
@@ -539,7 +554,7 @@ func TestC16(t *testing.T) {
 		ID:        "C16",
 		Rule:      "grammars in extended notation (optional parts, nested choices, lists with/without separators; no AST annotations) where every terminal has type int and value = its start offset, every nonterminal has type int; every top-level alternative ends with an action `$$ = <alt id>*100000 + ${left().offset}` and generated mid-rule actions are placed between parts of top-level and nested alternatives and inside / at the end of list elements. Each action logs up to 3 references to entities of its rule scope — by alias `part[rN]` ($rN, ${rN}, ${rN.offset}, ${rN.endoffset}), by nonterminal name when unique, or by number ($N, ${N.offset}; any preceding position, including symbols of other alternatives) — plus ${first().offset}/${last().endoffset} and, in final actions, ${left().offset}/${left().endoffset}. 40 derived sentences per grammar (with/without skipped spaces); the log must equal the log predicted from the derivation: present symbol -> its value and [offset,endoffset) on the stack (empty nonterminals and mid-rule nonterminals sit at the next token), absent symbol -> nil / -1. Non-trivial: a grammar whose sentences exercised at least 3 different kinds of (presence, reference form, symbol kind).",
 		Assume:    []string{"grammars rejected by the compiler (conflicts caused by mid-rule nonterminals etc.) are outside the domain and counted"},
-		Quick:     48, Thorough: 960, BatchSize: 48,
+		Quick:     128, Thorough: 1920, BatchSize: 48,
 		Gen:       c16GenCase,
 		Unit: func(c c16Case, name string) (batch.Unit, bool) {
 			return batch.Unit{Name: name, TM: c.render(name), Adapter: actionAdapter}, true
